@@ -20,7 +20,7 @@ RULE = ("lines rendered from conformant (mnemonic, unit, value, description) ove
         "Parameter, custom, None}; special forms: ~Parameter clock times HH:MM[:SS] for all 24 hours with/without dates, "
         "~Parameter descriptions with colons (separator ' : '), values with colons outside ~Parameter (last colon separates), no-period lines NAME : VALUE, 'digits blank word' units. "
         "Each line is parsed directly and, embedded in a generated file, through lasio.read (declared versions 1.2, 2.0, 2.1 and 3.0). "
-        "distinct = distinct (form, field classes, padding tuple, section); non-trivial = every case (a rendered line) Added later: the same text read under the other mnemonic_case settings first, direct parses repeated after the file reads, mixed-case table mnemonics in 1.2 / 2.0 ~Well sections read with upper / lower. Hunter round 2: no-period ~Curve lines whose value holds '..' and a further colon.")
+        "distinct = distinct (form, field classes, padding tuple, section); non-trivial = every case (a rendered line) Added later: the same text read under the other mnemonic_case settings first, direct parses repeated after the file reads, mixed-case table mnemonics in 1.2 / 2.0 ~Well sections read with upper / lower. Hunter round 2: no-period ~Curve lines whose value holds '..' and a further colon. Round 8: through-file reads under declared versions 2.1 and 3.0.")
 ASSUMPTIONS = [
     "the position between the period and the unit carries no padding (the grammar gives it meaning); a non-empty value is set off from the unit by at least one blank/tab",
     "in ~Curves no '..' precedes the description (conformance clause)",
